@@ -111,6 +111,7 @@ type Machine struct {
 	envVars      []*Term
 	vinfo        map[int]*varInfo
 	allocLimit   int
+	yieldCache   map[*ssa.FieldAddr]bool
 	DomDecided   int
 	intrCache    map[*ssa.Function]Intrinsic
 	StubsUsed    map[string]bool
@@ -620,6 +621,9 @@ func (m *Machine) visitInstr(fr *frame, instr ssa.Instruction) continuation {
 
 	case *ssa.FieldAddr:
 		p := m.derefPtr(fr.get(instr.X))
+		if m.threads != nil && len(m.P.YieldFields) > 0 && m.isYieldField(instr) {
+			m.yield("field access")
+		}
 		fr.env[instr] = &(*p).(Struct)[instr.Field]
 
 	case *ssa.Field:
@@ -762,4 +766,22 @@ func (m *Machine) spawn(fn Value, args []Value, pos token.Pos) {
 		return
 	}
 	m.spawned = append(m.spawned, spawnedGo{fn, args, pos})
+}
+
+// isYieldField reports whether the accessed struct field is configured as a visible
+// (schedulable) shared-memory access: "pkgpath.Type.field".
+func (m *Machine) isYieldField(instr *ssa.FieldAddr) bool {
+	if v, ok := m.yieldCache[instr]; ok {
+		return v
+	}
+	res := false
+	pt := instr.X.Type().Underlying().(*types.Pointer).Elem()
+	if named, ok := pt.(*types.Named); ok {
+		if st, ok := named.Underlying().(*types.Struct); ok && named.Obj().Pkg() != nil {
+			key := named.Obj().Pkg().Path() + "." + named.Obj().Name() + "." + st.Field(instr.Field).Name()
+			res = m.P.YieldFields[key]
+		}
+	}
+	m.yieldCache[instr] = res
+	return res
 }
